@@ -358,6 +358,12 @@ calcvla(struct func *f, struct type *t)
 	}
 }
 
+void
+funcvla(struct func *f, struct type *t)
+{
+	calcvla(f, t);
+}
+
 static void
 funcalloc(struct func *f, struct decl *d)
 {
